@@ -19,14 +19,17 @@ VARIABLE hist
 vars == <<node, idx, ent, clk, hist>>
 
 \* constant values that a .cfg cannot spell
+V3 == {<<1, 0>>, <<2, 0>>, <<0, 1>>}
 V4 == {<<1, 0>>, <<2, 0>>, <<0, 1>>, <<1, 1>>}
 V6 == V4 \cup {<<-1, 0>>, <<1, 2>>}
 V8 == V6 \cup {<<2, 1>>, <<0, -2>>}
+Q1 == {<<1, 1>>}
 Q2 == {<<1, 0>>, <<1, 1>>}
 Q3 == Q2 \cup {<<-1, 2>>}
 KeysAe == {<<"A", "e">>}
 KeysABe == {<<"A", "e">>, <<"B", "e">>}
 KeysABef == {<<"A", "e">>, <<"B", "e">>, <<"A", "f">>}
+LS1 == {{"A"}}
 LS3 == {{}, {"A"}, {"A", "B"}}
 LS4 == {{}, {"A"}, {"B"}, {"A", "B"}}
 
